@@ -19,7 +19,7 @@ SETUPS = {
             {"0": 16, "1": 8, "2": 24, "3": 16}, (48, 8)),
     "S_E": ([["alloc_bytes", 2, "handover"]], {"0": 16}, (32, 16)),
 }
-SETUP_STEPS = {"S_HN": 40, "S_H": 40, "S_2": 60, "S_E": 10}
+SETUP_STEPS = {"S_HN": 24, "S_H": 24, "S_2": 36, "S_E": 8}
 ALLOC = [["alloc_bytes", 2]]
 ALLOC_FREE = [["alloc_bytes", 2], ["free_last"]]
 DEALLOC = [["free_given", 2, 3, 0]]
@@ -73,28 +73,30 @@ def families():
                 n1=(5, 5), selftest=True, timeout=300))
     # --- C02: safety under interleavings
     for fl, tag in (("Optimistic", "opt"), ("Pessimistic", "pess")):
-        qs.append(Q("safe_alloc_vs_dealloc_%s_sw2_a" % tag, ["C02"], "quick" if tag == "opt" else "thorough", "safe", fl, "S_H", ALLOC, DEALLOC, [24, 16], 2, 1))
-        qs.append(Q("safe_alloc_vs_dealloc_%s_sw2_d" % tag, ["C02"], "quick" if tag == "pess" else "thorough", "safe", fl, "S_H", ALLOC, DEALLOC, [24, 16], 2, 2))
+        qs.append(Q("safe_alloc_vs_dealloc_%s_sw2_a" % tag, ["C02"], "quick" if tag == "opt" else "thorough", "safe", fl, "S_H", ALLOC, DEALLOC, [22, 14], 2, 1))
+        qs.append(Q("safe_alloc_vs_dealloc_%s_sw2_d" % tag, ["C02"], "quick" if tag == "opt" else "thorough", "safe", fl, "S_H", ALLOC, DEALLOC, [22, 14], 2, 2))
         qs.append(Q("safe_alloc_vs_alloc_%s_sw2" % tag, ["C02"], "thorough", "safe", fl, "S_2", ALLOC, ALLOC, [24, 24], 2, 1, n1=(1, 16)))
         qs.append(Q("safe_alloc_vs_dealloc_%s_sw3" % tag, ["C02"], "thorough", "safe", fl, "S_H", ALLOC, DEALLOC, [24, 16], 3, 1, timeout=1800))
     qs.append(Q("safe_bump_vs_toprelease_none_sw2", ["C02"], "quick", "safe", "None", "S_E", ALLOC_FREE, DEALLOC_ALLOC, [14, 14], 2, 1, n1=(1, 24)))
     qs.append(Q("safe_bump_vs_toprelease_none_sw3", ["C02"], "quick", "safe", "None", "S_E", ALLOC_FREE, DEALLOC_ALLOC, [14, 14], 3, 2, n1=(1, 24)))
     qs.append(Q("safe_bump_vs_toprelease_opt_sw3", ["C02"], "thorough", "safe", "Optimistic", "S_E", ALLOC_FREE, DEALLOC_ALLOC, [16, 18], 3, 2, n1=(1, 24), timeout=1800))
     # --- C07: no operation waits for ever
-    qs.append(Q("live_alloc_vs_dealloc_opt_sw3", ["C07"], "quick", "live", "Optimistic", "S_HN", ALLOC, DEALLOC, [24, 16], 3, 1, n1=(1, 8), role="waiter_after_pop"))
+    qs.append(Q("live_alloc_vs_dealloc_opt_sw2_d", ["C07"], "quick", "live", "Optimistic", "S_HN", ALLOC, DEALLOC, [22, 14], 2, 2, n1=(1, 8), role="waiter_after_pop"))
+    qs.append(Q("live_alloc_vs_dealloc_opt_sw2_a", ["C07"], "quick", "live", "Optimistic", "S_HN", ALLOC, DEALLOC, [22, 14], 2, 1, n1=(1, 8)))
+    qs.append(Q("live_alloc_vs_dealloc_opt_sw3", ["C07"], "thorough", "live", "Optimistic", "S_HN", ALLOC, DEALLOC, [24, 16], 3, 1, n1=(1, 8), role="waiter_after_pop", timeout=2400))
     qs.append(Q("live_alloc_vs_dealloc_pess_sw3", ["C07"], "thorough", "live", "Pessimistic", "S_HN", ALLOC, DEALLOC, [24, 16], 3, 1, n1=(1, 8), role="waiter_after_pop"))
     qs.append(Q("live_alloc_vs_dealloc_opt_sw3_d", ["C07"], "thorough", "live", "Optimistic", "S_HN", ALLOC, DEALLOC, [24, 16], 3, 2, n1=(1, 8)))
     qs.append(Q("live_alloc_vs_alloc_opt_sw2", ["C07"], "thorough", "live", "Optimistic", "S_2", ALLOC, ALLOC, [24, 24], 2, 1, n1=(1, 16), timeout=2400))
     qs.append(Q("live_bump_vs_toprelease_none_sw3", ["C07"], "quick", "live", "None", "S_E", ALLOC_FREE, DEALLOC_ALLOC, [14, 14], 3, 1, n1=(1, 24)))
     qs.append(Q("live_bump_none_sw2", ["C07"], "thorough", "live", "None", "S_E", ALLOC_FREE, DEALLOC_ALLOC, [14, 14], 2, 1))
     # --- C12: happens-before between the previous owner, the arena's zeroing and the next owner
-    qs.append(Q("hb_dealloc_then_alloc_opt_sw2", ["C12"], "quick", "hb", "Optimistic", "S_HN", ALLOC_FREE, DEALLOC, [30, 16], 2, 2, n1=(1, 16)))
+    qs.append(Q("hb_dealloc_then_alloc_opt_sw2", ["C12"], "quick", "hb", "Optimistic", "S_HN", ALLOC_FREE, DEALLOC, [30, 14], 2, 2, n1=(1, 16)))
     qs.append(Q("hb_toprelease_then_bump_none_sw2", ["C12"], "quick", "hb", "None", "S_E", ALLOC_FREE, DEALLOC, [14, 6], 2, 2, n1=(1, 24)))
     qs.append(Q("hb_dealloc_then_alloc_pess_sw2", ["C12"], "thorough", "hb", "Pessimistic", "S_HN", ALLOC_FREE, DEALLOC, [30, 16], 2, 2, n1=(1, 16)))
     qs.append(Q("hb_dealloc_then_alloc_opt_sw3", ["C12"], "thorough", "hb", "Optimistic", "S_HN", ALLOC_FREE, DEALLOC, [30, 16], 3, 1, n1=(1, 16), timeout=1800))
     # --- C06: crash of the victim at any step of its operation, reopen, one more operation by a fresh thread
-    qs.append(Q("crash_in_alloc_opt", ["C06"], "quick", "crash", "Optimistic", "S_H", ALLOC, ALLOC, [24, 24], 1, 1, n1=(1, 16), role="crash_between_mark_and_unlink"))
-    qs.append(Q("crash_in_dealloc_opt", ["C06"], "quick", "crash", "Optimistic", "S_H", DEALLOC, ALLOC, [16, 24], 1, 1, n1=(1, 16)))
+    qs.append(Q("crash_in_alloc_opt", ["C06"], "quick", "crash", "Optimistic", "S_H", ALLOC, ALLOC, [22, 22], 1, 1, n1=(1, 16), role="crash_between_mark_and_unlink"))
+    qs.append(Q("crash_in_dealloc_opt", ["C06"], "quick", "crash", "Optimistic", "S_H", DEALLOC, ALLOC, [14, 22], 1, 1, n1=(1, 16)))
     qs.append(Q("crash_in_alloc_pess", ["C06"], "thorough", "crash", "Pessimistic", "S_H", ALLOC, ALLOC, [24, 24], 1, 1, n1=(1, 16), role="crash_between_mark_and_unlink"))
     qs.append(Q("crash_in_dealloc_pess", ["C06"], "thorough", "crash", "Pessimistic", "S_H", DEALLOC, ALLOC, [16, 24], 1, 1, n1=(1, 16)))
     qs.append(Q("crash_in_bump_none", ["C06"], "thorough", "crash", "None", "S_E", ALLOC, ALLOC, [10, 10], 1, 1, n1=(1, 24)))
